@@ -35,7 +35,8 @@ Proof. reflexivity. Qed.
 
 (* never another command's packet: in EVERY run (any events, tie policy, transport behaviour, number of steps) in which no internal
    assertion of the FSM has tripped -- none reached the event loop, none was handed to a caller; the runs in which one does are C09's
-   finding -- every packet a caller is handed is the echo of ITS frame or the reply ITS frame asks for *)
+   finding -- every packet a caller is handed is the echo of ITS frame, the reply ITS frame asks for, or (for an RQ|0418) the addressed
+   controller's null log entry *)
 Theorem C07_result_belongs : forall cmds plan lifo fuel evs,
   let w := fst (run cmds plan lifo fuel (world0 evs)) in
   clean_tr (trace w) = true -> forall t c p, In (Done t c (OkPkt p)) (trace w) -> belongs cmds p c.
@@ -46,3 +47,15 @@ Theorem C07_result_belongs_nonvacuous :
   let tr := fst (fst (simulate (cmd_a 0 20000000) echoed false 5000 [(0, ConnMade); (15625, Call 0%nat)])) in
   clean_tr tr = true /\ exists t p, In (Done t 0%nat (OkPkt p)) tr.
 Proof. exact result_belongs_nonvacuous. Qed.
+
+(* "never another command's packet", the near-equal headers: while a reply is awaited, a packet that carries neither the awaited header nor is a
+   null fault-log entry of the ADDRESSED controller changes nothing (a neighbour controller's null entry does not complete an RQ|0418) ... *)
+Theorem C07_foreign_packet_ignored : forall cmds w p k e h,
+  state (cx w) = WantRply -> sent (cx w) = Some k -> echo (cx w) = Some e -> rx_hdr (cmds k) = Some h ->
+  p_hdr p <> h -> null_ok (cmds k) p = false -> pkt_rcvd cmds w p = Ok w.
+Proof. exact foreign_packet_ignored. Qed.
+(* ... and the addressed controller's null entry (index 00 whatever index was asked for) does answer it *)
+Theorem C07_own_null_entry_answers : forall cmds w p k e h,
+  state (cx w) = WantRply -> sent (cx w) = Some k -> echo (cx w) = Some e -> rx_hdr (cmds k) = Some h ->
+  p_hdr p <> tx_hdr (cmds k) -> null_ok (cmds k) p = true -> pkt_rcvd cmds w p = set_state w Idle (HRes p).
+Proof. exact own_null_entry_answers. Qed.
